@@ -299,7 +299,7 @@ def run_check(check: Check, tier: str, replay: Optional[str] = None) -> int:
 
     # 5. judge -------------------------------------------------------------------------------------
     to_judge = set(mismatches) | set(tie_idx)
-    if broken or mismatches:
+    if broken or mismatches or os.environ.get("VERIF_JUDGE_ALL"):
         to_judge = set(range(len(cases)))  # failing-input search over everything explored
     else:
         k = check.judge_sample if tier == "quick" else check.judge_sample * 10
